@@ -98,6 +98,30 @@ Proof.
   apply Hnot. exists (erase t). apply (parse_ok_deriv ug terminals smart start p k body e t); auto.
 Qed.
 
+(* the same without the validator hypothesis: C01.parse_sound_constructor needs only build = Ok p *)
+Theorem parse_ok_deriv_c : forall ug terminals smart start p k body e t,
+  build ug terminals smart start = Ok p ->
+  (forall b, In b body -> tname b <> END_TOKEN) ->
+  p_parse p k (body ++ [e]) = Ok t ->
+  Deriv (ugram ug) (p_terminals p) start (erase t) (map tok_pair body).
+Proof.
+  intros ug terminals smart start p k body e t HB Hbody HP.
+  destruct (C01.Props.parse_sound_constructor ug terminals smart start p k body e t HB Hbody HP)
+    as [Hname [Hvalid [_ [Hkinds Hleaves]]]].
+  pose proof (vtree_deriv (ugram ug) (p_terminals p) t (valid_vtree ug (p_terminals p) t Hvalid Hkinds)) as D.
+  rewrite Hname in D. rewrite <- leaves_same in D. rewrite Hleaves in D. exact D.
+Qed.
+
+Theorem ll1_reject_c : forall ug terminals smart start p k body e t,
+  build ug terminals smart start = Ok p ->
+  (forall b, In b body -> tname b <> END_TOKEN) ->
+  ~ in_language (ugram ug) (p_terminals p) start (map tok_pair body) ->
+  p_parse p k (body ++ [e]) <> Ok t.
+Proof.
+  intros ug terminals smart start p k body e t HB Hbody Hnot HP.
+  apply Hnot. exists (erase t). apply (parse_ok_deriv_c ug terminals smart start p k body e t); auto.
+Qed.
+
 (* ---------- ll1_complete for a parser made by the constructor ---------- *)
 Theorem ll1_complete_build : forall ug terminals smart start p body e d,
   build ug terminals smart start = Ok p ->
